@@ -32,7 +32,7 @@ fn sched_dir() -> std::path::PathBuf {
 }
 fn config(w: &Workload, dir: &std::path::Path) -> Config {
     let mut c = Config::new();
-    c.stack_size = if w.uses_lib() { 4 << 20 } else { 1 << 20 };
+    c.stack_size = if w.uses_lib() { 4 << 20 } else { 2 << 20 };
     c.max_steps = MaxSteps::FailAfter(20_000);
     c.failure_persistence = FailurePersistence::File(Some(dir.to_path_buf()));
     c.silence_warnings = true;
